@@ -108,4 +108,134 @@ theorem fileMetaRecords_encodePy (t : RawTriangle) (h : wf t = true) :
 theorem recordsOnChange_encodePy (t : RawTriangle) (h : wf t = true) :
     Spec.C06.recordsOnChange t (encodePy t) = true := by
   simp [Spec.C06.recordsOnChange, fileMetaRecords_encodePy t h]
+/-! ### what comes back from the writer as written, for EVERY well-formed triangle (audit follow-up) -/
+
+theorem cellInit_withMd (c : RawCell) (m : RawMetadata) :
+    (match cellInit { c with md := m } with | .ok _ => true | .error _ => false) =
+    (match cellInit c with | .ok _ => true | .error _ => false) := by
+  unfold cellInit
+  simp only []
+  by_cases h1 : (!List.all c.values fun e => cellValOk e.snd) = true
+  · simp [h1]
+  · by_cases h2 : c.pe < c.ps
+    · simp [h1, h2]
+    · by_cases h3 : c.ev < c.ps
+      · simp [h1, h2, h3]
+      · by_cases h4 : (c.ev == Date.max) = true
+        · simp [h1, h2, h3, h4]
+        · cases hp : c.prev with
+          | none => simp [h1, h2, h3, h4]
+          | some p =>
+            by_cases h5 : c.ev ≤ p
+            · simp [h1, h2, h3, h4, h5]
+            · simp [h1, h2, h3, h4, h5]
+
+theorem cellOk_withMd {c : RawCell} {m : RawMetadata} (hc : cellOk c = true) (hm : metaOk m = true) :
+    cellOk { c with md := m } = true := by
+  have e := cellInit_withMd c m
+  simp only [cellOk, Bool.and_eq_true] at hc ⊢
+  obtain ⟨⟨⟨⟨⟨⟨h1, h2⟩, h3⟩, h4⟩, _⟩, h6⟩, h7⟩ := hc
+  exact ⟨⟨⟨⟨⟨⟨h1, h2⟩, h3⟩, h4⟩, hm⟩, h6⟩, e.trans h7⟩
+
+theorem firstReprFrom_cons (prev cur : Option RawMetadata) (c : RawCell) (cs : List RawCell) :
+    firstReprFrom prev cur (c :: cs) =
+      if pyChanged prev c.md then c :: firstReprFrom (some c.md) (some c.md) cs
+      else { c with md := cur.getD c.md } :: firstReprFrom (some c.md) cur cs := rfl
+
+theorem readRecords_writeRecordsPy (pool : List Bytes) (hp : pool.length ≤ 65536)
+    (cells : List RawCell) (hc : ∀ c ∈ cells, cellOk c = true ∧ CellIn pool c)
+    (prev cur : Option RawMetadata) (hcur : ∀ m, cur = some m → metaOk m = true)
+    (hpc : prev.isSome = true → cur.isSome = true)
+    (fuel : Nat) (hf : (writeRecordsPy pool prev cells).length < fuel) :
+    readRecords (pool.map some) fuel cur (writeRecordsPy pool prev cells) = .ok (firstReprFrom prev cur cells) := by
+  induction cells generalizing prev cur fuel with
+  | nil =>
+    cases fuel with
+    | zero => omega
+    | succ f => simp [writeRecordsPy, readRecords, firstReprFrom]
+  | cons c cs ih =>
+    obtain ⟨hok, hv, hd, hl⟩ := hc c (by simp)
+    have hmeta : metaOk c.md = true := by
+      simp only [cellOk, Bool.and_eq_true] at hok
+      exact hok.1.1.2
+    have hcs : ∀ c' ∈ cs, cellOk c' = true ∧ CellIn pool c' := fun c' h' => hc c' (by simp [h'])
+    -- the cell record read under the current record `m`, followed by the remaining records
+    have cellStep : ∀ (m : RawMetadata) (f : Nat), metaOk m = true →
+        (writeRecordsPy pool (some c.md) cs).length < f →
+        readRecords (pool.map some) (f + 1) (some m)
+          ((kindTag c.kind :: writeCellBody pool c) ++ writeRecordsPy pool (some c.md) cs) =
+          .ok ({ c with md := m } :: firstReprFrom (some c.md) (some m) cs) := by
+      intro m f hm hf'
+      have hc' : cellOk { c with md := m } = true := cellOk_withMd hok hm
+      have hb := readCellBody_writeCellBody pool hp { c with md := m } hc' hv
+        (writeRecordsPy pool (some c.md) cs)
+      have hw : writeCellBody pool { c with md := m } = writeCellBody pool c := rfl
+      rw [hw] at hb
+      simp only [List.cons_append, readRecords, kindTag_ne_meta, Bool.false_eq_true, if_false,
+        markerKind_kindTag, Option.getD_some, hb,
+        ih hcs (some c.md) (some m) (fun m' e => by cases e; exact hm) (fun _ => rfl) f hf']
+    cases fuel with
+    | zero => omega
+    | succ f =>
+      rw [writeRecordsPy_cons] at hf ⊢
+      rw [firstReprFrom_cons]
+      by_cases hch : pyChanged prev c.md = true
+      · simp only [hch, if_true, List.cons_append, List.append_assoc] at hf ⊢
+        cases f with
+        | zero => simp at hf
+        | succ f' =>
+          have hm : (K.tMetadata == K.tMetadata) = true := by simp
+          rw [readRecords]
+          simp only [hm, if_true, readMetaBody_writeMetaBody pool hp c.md hmeta hd hl]
+          have := cellStep c.md f' hmeta (by simp only [List.length_cons, List.length_append] at hf ⊢; omega)
+          simpa using this
+      · simp only [hch, Bool.false_eq_true, if_false, List.nil_append] at hf ⊢
+        -- not changed: there was a previous cell, hence a current record
+        have hps : prev.isSome = true := by
+          cases prev with
+          | none => simp [pyChanged] at hch
+          | some p => rfl
+        obtain ⟨m, hm⟩ := Option.isSome_iff_exists.mp (hpc hps)
+        subst hm
+        simp only [Option.getD_some]
+        exact cellStep m f (hcur m rfl)
+          (by simp only [List.cons_append, List.length_cons, List.length_append] at hf ⊢; omega)
+
+/-- **the writer as written, without `coherent`**: reading back `to_binary`'s file gives every cell with the
+metadata representation of the first cell of its run of Python-equal metadata -/
+theorem decode_encodePy_firstRepr (t : RawTriangle) (h : wf t = true) : decode (encodePy t) = .ok (firstRepr t) := by
+  obtain ⟨hc, hlen⟩ := wf_parts h
+  have hm : K.magic = [175, 54, 1, 0] := by decide
+  have hv : K.version = [1] := by decide
+  have e1 : (encodePy t).take 4 = K.magic := by simp [encodePy, hm]
+  have e2 : ((encodePy t).drop 4).take 1 = K.version := by simp [encodePy, hm, hv]
+  have e3 : (encodePy t).drop 5 = writePool (poolOf t) ++ writeRecordsPy (poolOf t) none t := by
+    simp [encodePy, hm, hv]
+  unfold decode firstRepr
+  simp only [e1, e2, ne_eq, not_true_eq_false, if_false, e3,
+    readPool_writePool (poolOf t) hlen (poolOf_strOk t hc)]
+  exact readRecords_writeRecordsPy (poolOf t) (by omega) t
+    (fun c hc' => ⟨hc c hc', cellIn_poolOf t c hc'⟩) none none (fun m e => by cases e) (fun e => by cases e) _ (by omega)
+
+/-- on coherent triangles nothing changes representation -/
+theorem firstReprFrom_of_coherent (cells : List RawCell) (prev : Option RawMetadata)
+    (h : coherentFrom prev cells = true) : firstReprFrom prev prev cells = cells := by
+  induction cells generalizing prev with
+  | nil => rfl
+  | cons c cs ih =>
+    simp only [coherentFrom, Bool.and_eq_true, beq_iff_eq] at h
+    rw [firstReprFrom_cons]
+    by_cases hch : pyChanged prev c.md = true
+    · simp [hch, ih (some c.md) h.2]
+    · have hp : prev = some c.md := by
+        have := h.1
+        simp only [Bool.not_eq_true] at hch
+        rw [hch] at this
+        simpa using this.symm
+      subst hp
+      simp [hch, ih (some c.md) h.2]
+
+theorem firstRepr_of_coherent (t : RawTriangle) (h : coherent t = true) : firstRepr t = t :=
+  firstReprFrom_of_coherent t none h
+
 end Bermuda.Codec
